@@ -1,19 +1,50 @@
 import Crv.Driver.Mode
+import Crv.Driver.Rd
+import Crv.Driver.Kv
+import Crv.Driver.Repo
+import Crv.Driver.Ocsp
+import Crv.Driver.Conf
+import Crv.Driver.Path
+import Crv.Driver.Sched
+import Crv.Driver.Lock
+import Crv.Driver.Disk
 open Crv.Driver
 
-def step (line : String) : String :=
-  match words line with
-  | "mode" :: rest => stepMode rest
-  | _ => "bad-op"
+/-- One model state per stream kind (DESIGN.md Appendix A). -/
+structure DriverState where
+  rd : Rd.State := Rd.init
+  kv : Kv.State := Kv.init
+  repo : Repo.State := Repo.init
+  ocsp : Ocsp.State := Ocsp.init
+  conf : Conf.State := Conf.init
+  path : Path.State := Path.init
+  sched : Sched.State := Sched.init
+  lock : Lock.State := Lock.init
+  disk : Disk.State := Disk.init
 
-partial def loop (h : IO.FS.Stream) (out : IO.FS.Stream) : IO Unit := do
+def stepLine (st : DriverState) (line : String) : DriverState × String :=
+  match words line with
+  | "mode" :: rest => (st, stepMode rest)
+  | "rd" :: rest => let (s', out) := Rd.step st.rd rest; ({ st with rd := s' }, out)
+  | "kv" :: rest => let (s', out) := Kv.step st.kv rest; ({ st with kv := s' }, out)
+  | "repo" :: rest => let (s', out) := Repo.step st.repo rest; ({ st with repo := s' }, out)
+  | "ocsp" :: rest => let (s', out) := Ocsp.step st.ocsp rest; ({ st with ocsp := s' }, out)
+  | "conf" :: rest => let (s', out) := Conf.step st.conf rest; ({ st with conf := s' }, out)
+  | "path" :: rest => let (s', out) := Path.step st.path rest; ({ st with path := s' }, out)
+  | "sched" :: rest => let (s', out) := Sched.step st.sched rest; ({ st with sched := s' }, out)
+  | "lock" :: rest => let (s', out) := Lock.step st.lock rest; ({ st with lock := s' }, out)
+  | "disk" :: rest => let (s', out) := Disk.step st.disk rest; ({ st with disk := s' }, out)
+  | _ => (st, "bad-op")
+
+partial def loop (h : IO.FS.Stream) (out : IO.FS.Stream) (st : DriverState) : IO Unit := do
   let line ← h.getLine
   if line.isEmpty then return ()
   let l := if line.endsWith "\n" then (line.dropEnd 1).toString else line
-  out.putStrLn (step l)
-  loop h out
+  let (st', ans) := stepLine st l
+  out.putStrLn ans
+  loop h out st'
 
 def main : IO Unit := do
   let out ← IO.getStdout
-  loop (← IO.getStdin) out
+  loop (← IO.getStdin) out {}
   out.flush
